@@ -73,6 +73,19 @@ static void check_decode(const Msg &m, const ref::bytes &rb, const std::string &
     count(shift ? "decode.messages_unaligned" : "decode.messages");
     size_t ml = rtosc_message_length(msg, len);
     if(ml != len) fail("message_length", tags, desc, std::to_string(ml), std::to_string(len));
+    // the same bytes handed over as a two-segment ring (as ThreadLink does when a message wraps): every split position
+    // for short messages, a sample for long ones; each segment in its own exact-size block
+    if(!shift) {
+        size_t step = len <= 96 ? 1 : len / 24 + 1;
+        for(size_t k = 0; k <= len; k += step) {
+            Heap a(k), b(len - k);
+            memcpy(a.p, msg, k); memcpy(b.p, msg + k, len - k);
+            ring_t ring[2] = {{a.p, k}, {b.p, len - k}};
+            size_t rl = rtosc_message_ring_length(ring);
+            count("decode.ring_splits");
+            if(rl != len) { fail("ring_length", tags, desc + fmt(" [as two segments of %zu + %zu bytes]", k, len - k), std::to_string(rl), std::to_string(len)); break; }
+        }
+    }
     const char *as = rtosc_argument_string(msg);
     if(as < msg || as >= msg + len || m.types != as)
         fail("argument_string", tags, desc, as >= msg && as < msg + len ? vis(as, strnlen(as, 64)) : "<outside>", m.types);
